@@ -71,13 +71,59 @@ def run(ctx):
     seg_fns = [f for f in prog.fns.values() if f.family == 'seg' and not f.is_closure]
     ins = [f for f in seg_fns if f.trait_method() == 'insert_by_range']
     qry = [f for f in seg_fns if f.trait_method() == 'iter_by_range']
-    nxt = [f for f in seg_fns if f.trait_method() == 'next' and liveness_keeps(prog, f)]
-    if not (ins and qry and nxt):
-        ctx.anchor_missing(RULE, 'insert_by_range / iter_by_range / Iterator::next of the segment tree', PROPS, len(ins) + len(qry) + len(nxt), 3)
-        return
-    check_insert(ctx, prog, ins[0])
-    check_query(ctx, prog, qry[0])
-    check_next(ctx, prog, nxt[0])
+    nxt = []
+    for f in seg_fns:
+        if f.trait_method() == 'next':
+            g = with_scan_helpers(prog, f)
+            if liveness_keeps(prog, g):
+                nxt.append((f, g))
+    # each of the three entry points is an anchor of its own: a scan that is no longer recognised must not pass as a
+    # "consolidation" of the other two
+    for what, found in (('insert_by_range of the segment tree', ins), ('iter_by_range of the segment tree', qry), ('Iterator::next of the query iterator with the expiry test of the scanned copy', nxt)):
+        if not found:
+            ctx.anchor_missing(RULE, what, PROPS, 0, 1)
+    if ins:
+        check_insert(ctx, prog, ins[0])
+    if qry:
+        check_query(ctx, prog, qry[0])
+    if nxt:
+        check_next(ctx, prog, nxt[0][1], nxt[0][0])
+
+
+def with_scan_helpers(prog, fn):
+    """`next` with the private helpers of the iterator that contain a loop spliced in (a scan extracted into a helper
+    is still next's own scan); the function itself if there is nothing to splice"""
+    import copy, inline
+    from program import Fn
+    host = None
+    for _ in range(3):
+        cur = fn if host is None else Fn(prog, dict(fn.info, mir=host))
+        sites = []
+        for c in cur.body.calls:
+            tgt = prog.resolve(c)
+            if tgt is None or tgt.is_closure or tgt.trait_item or tgt.self_adt != fn.self_adt or tgt.path in prog.accessors or not tgt.info.get('mir'):
+                continue
+            tb = tgt.body
+            if not tb.cfg.loops() or inline.recursive(prog, tgt):
+                continue
+            if not any(x.callee_name() in ('swap_remove', 'remove', 'retain', 'expiration') or (prog.resolve(x) is not None and prog.resolve(x).path in prog.accessors) for x in tb.calls):
+                continue        # e.g. the advance over the mask bits: a cursor helper, recognised as such by check_next
+            if not liveness_keeps(prog, tgt):
+                continue
+            sites.append((c.point[0], tgt))
+        if not sites:
+            break
+        if host is None:
+            host = copy.deepcopy(fn.info['mir'])
+        blk, tgt = sites[0]
+        t = host['blocks'][blk]['term']
+        if t['k'] != 'call':
+            break
+        inline.splice(host, blk, tgt.info['mir'], t['args'], t['dest'], t.get('target'), t['span'], tgt.name)
+        inline.thread_discriminants(host)
+    if host is None:
+        return fn
+    return Fn(prog, dict(fn.info, mir=host))
 
 
 # ---- 1 ---------------------------------------------------------------------------------------------
@@ -180,7 +226,7 @@ def check_query(ctx, prog, fn):
 
 
 # ---- 3..6 --------------------------------------------------------------------------------------------
-def check_next(ctx, prog, fn):
+def check_next(ctx, prog, fn, report_fn=None):
     b = fn.body
     cfg = b.cfg
     keeps = liveness_keeps(prog, fn)
